@@ -44,6 +44,12 @@ def run_all(chk, fsets, tier):
         chk.rule("S.content", floor=8 if i == 0 else 0,
                  doc="bit-sequence domain: set_bit_pos(p) positions the backend at word p / W; for p % W = r > 0 it fetches exactly one word and the buffer holds exactly that word's last W - r stream bits in its valid window (zeros elsewhere); for r = 0 nothing is fetched and the buffer is empty - so every later read behaves as on a fresh reader that consumed p bits (C02.R7 from that state)")
         rules_seq.run_seek_content(chk, F, fs, "S.content")
+    # failed look-ahead and the unbuffered reader's primitives
+    import deps
+    F0 = facts.load(fsets[0])
+    deps.end_of_stream(chk, F0, tier, ("E3.order",), "S.history", "a failed look-ahead fetch does not touch the counters the position is computed from (C09)")
+    chk.rule("S.history.unbuffered", floor=20, doc="E3 obligations of the unbuffered reader, including: a successful read_unary found a terminating one inside the word it counted, so bit_index moves to the bit after it (C02.R2) [included]")
+    rn.run_specs(chk, F0, [s for s in rn.reader_specs() if s.key.startswith("bitreader.") and s.group is None], "S.history.unbuffered", fsets[0])
     # backends
     import rules_c13, rules_c11
     for mod, rules, name in ((rules_c13, ("K.word_pos", "K.set_word_pos", "K.read_word"), "memory backends"), (rules_c11, ("A4.positions",), "byte adapter")):
